@@ -35,6 +35,16 @@ Theorem C11_constants_match_source :
   = (BLOCK_BIT_LOG, BLOCK_BITS, RING_BLOCKS, WINDOW_SIZE, BLOCK_MASK, BIT_MASK).
 Proof. vm_compute. reflexivity. Qed.
 
+(* ... and of the client's vector of windows: how many server sessions are remembered, and that the entry that makes room
+   is the one at the generated index (0 = the oldest) *)
+Theorem C11_client_window_count_matches_source : SSUDP_CLIENT_MAX_SERVER_SESSIONS = MAX_SERVER_SESSIONS.
+Proof. vm_compute. reflexivity. Qed.
+Theorem C11_client_evicts_the_generated_index : forall e0 e1 e2 e3 A, ~ In A (fkeys [e0; e1; e2; e3]) ->
+  filter_of [e0; e1; e2; e3] A
+  = firstn (N.to_nat SSUDP_CLIENT_EVICTED_INDEX) [e0; e1; e2; e3] ++ skipn (S (N.to_nat SSUDP_CLIENT_EVICTED_INDEX)) [e0; e1; e2; e3]
+    ++ [(A, pw_new)].
+Proof. intros e0 e1 e2 e3 A H. rewrite (filter_of_new _ _ H). reflexivity. Qed.
+
 (* the property text: window size 8128; the stated limit at both call sites refuses the top id *)
 Theorem C11_window_is_8128 : WINDOW_SIZE = 8128.
 Proof. reflexivity. Qed.
@@ -49,12 +59,30 @@ Proof. vm_compute. reflexivity. Qed.
 Example C11_R_reachable : R pw_new [].
 Proof. exact R_init. Qed.
 
-(* client reply decoder: a refused id yields no item and leaves the session unchanged *)
+(* ---- client reply decoder (DatagramPacketCodec::decode): ONE window PER SERVER SESSION, the 4 newest are held ---- *)
+(* one step: the verdict on a packet of a server session whose window is held is the specification's verdict on the ids
+   accepted IN THAT SERVER SESSION, whatever the other windows hold *)
+Definition C11_client_step_spec := @client_dgram_decode_spec.
+(* a refused id yields no item; the session is unchanged -- identical state when the server session's window is held; otherwise
+   (only possible with id >= 2^64-1) filter_of alone has run *)
 Definition C11_client_refused_keeps_session := @refused_packet_keeps_session_client.
 (* ... the rest of the run is as if it had not arrived *)
 Definition C11_client_refused_invisible := @refused_packet_invisible_client.
-(* delivered ids are pairwise distinct, any order *)
+(* full strength, every input sequence from every state: from the datagram that opens the window of server session A and while
+   fewer than 4 further windows are opened, A's packets are delivered exactly as the specification window decides on A's ids
+   alone; delivered ids of A pairwise distinct *)
 Definition C11_client_at_most_once := @client_packet_id_at_most_once.
+(* "opens a window" depends on the server session ids seen alone (FIFO of 4) *)
+Definition C11_client_windows_fifo := @client_trace_new_is_fifo.
+(* the repaired behaviour (5185ac1): the first packet of a server session whose window is not held is accepted from ANY state *)
+Definition C11_client_new_server_session_accepted := @client_new_server_session_accepted.
+(* ... and the single-window client of before refuses it (regression sensitivity) *)
+Definition C11_single_window_drops_new_session_witness := ToyUdp.single_window_drops_new_session_witness.
+(* stated limit: the 5th distinct server session displaces the first one's window (tightness of the bound 4) *)
+Definition C11_client_window_eviction_witness := ToyUdp.client_window_eviction_witness.
+(* repair 642ebdf: a datagram naming another client session is dropped before any window is consulted: it uses up no id *)
+Definition C11_client_foreign_session_dropped := @client_foreign_session_datagram_dropped.
+Definition C11_foreign_session_datagram_witness := ToyUdp.foreign_session_datagram_witness.
 (* server association: a refused id is dropped, the task continues, state unchanged *)
 Definition C11_server_refused_keeps_session := @refused_packet_keeps_session_server.
 (* ... invisible to what follows *)
@@ -64,9 +92,18 @@ Definition C11_server_at_most_once := @server_packet_id_at_most_once.
 (* an unresolvable target does not end the association *)
 Definition C11_server_unresolved_keeps_session := @unresolved_packet_keeps_session.
 
+Check @C11_client_step_spec.
 Check @C11_client_refused_keeps_session.
 Check @C11_client_refused_invisible.
 Check @C11_client_at_most_once.
+Check @C11_client_windows_fifo.
+Check @C11_client_new_server_session_accepted.
+Check C11_single_window_drops_new_session_witness.
+Check C11_client_window_eviction_witness.
+Check @C11_client_foreign_session_dropped.
+Check C11_foreign_session_datagram_witness.
+Check C11_client_window_count_matches_source.
+Check C11_client_evicts_the_generated_index.
 Check @C11_server_refused_keeps_session.
 Check @C11_server_refused_invisible.
 Check @C11_server_at_most_once.
@@ -78,9 +115,18 @@ Print Assumptions C11_limit.
 Print Assumptions C11_refused_invisible.
 Print Assumptions C11_constants_match_source.
 Print Assumptions C11_callsite_limits.
+Print Assumptions C11_client_window_count_matches_source.
+Print Assumptions C11_client_evicts_the_generated_index.
+Print Assumptions C11_client_step_spec.
 Print Assumptions C11_client_refused_keeps_session.
 Print Assumptions C11_client_refused_invisible.
 Print Assumptions C11_client_at_most_once.
+Print Assumptions C11_client_windows_fifo.
+Print Assumptions C11_client_new_server_session_accepted.
+Print Assumptions C11_single_window_drops_new_session_witness.
+Print Assumptions C11_client_window_eviction_witness.
+Print Assumptions C11_client_foreign_session_dropped.
+Print Assumptions C11_foreign_session_datagram_witness.
 Print Assumptions C11_server_refused_keeps_session.
 Print Assumptions C11_server_refused_invisible.
 Print Assumptions C11_server_at_most_once.
